@@ -3,12 +3,14 @@ module verifh
 go 1.14
 
 require (
+	github.com/btcsuite/btcd v0.21.0-beta
 	github.com/confio/ics23/go v0.6.6
 	github.com/ethereum/go-ethereum v1.9.25
 	github.com/joeqian10/neo-gogogo v1.1.0
 	github.com/joeqian10/neo3-gogogo v0.3.8
 	github.com/ontio/ontology v1.11.1-0.20200812075204-26cf1fa5dd47
 	github.com/ontio/ontology-crypto v1.0.9
+	github.com/ontio/ontology-eventbus v0.9.1
 	github.com/polynetwork/poly v0.0.0
 	github.com/syndtr/goleveldb v1.0.1-0.20200815110645-5c35d600f0ca
 	github.com/tendermint/tendermint v0.33.7
